@@ -90,7 +90,7 @@ def c06_batches(tier):
         bs.append(B("stress-tsan-%s" % be, "stress", be, "optim-tsan", 4 if q else 200, spec="swarm:6", specpool=2, nkeys=1, maxw=8, weight=25 if q else 250,
                     no_determinism=True, max_procs=2 if q else 6))
     for spec in ("P128", "P80"):
-        bs.append(B("conc-%s-spqlios-fma-optim" % spec, "conc", "spqlios-fma", "optim", 4 if q else 60, spec=spec, nkeys=1, maxw=4, maxops=2, pchurn=0.3, ploader=0.0,
+        bs.append(B("conc-%s-spqlios-fma-optim" % spec, "conc", "spqlios-fma", "optim", 6 if q else 60, spec=spec, nkeys=1, maxw=4, maxops=2, pchurn=0.3, ploader=0.0, phist=0.6,
                     weight=80 if q else 400, det_count=1, max_procs=4 if q else 8))
         if not q:
             for be in BACKENDS[1:]:
@@ -368,6 +368,9 @@ def c16_batches(tier):
             bs.append(B("life-small-%s-%s" % (be, var), "life", be, var, (60 if q else 1500) * slow, maxn=9, nops=12, weight=30 if q else 300, max_procs=3, **extra))
             # every run in its own short-lived thread, the main thread never touches the library (thread create/exit histories)
             bs.append(B("life-threads-%s-%s" % (be, var), "life", be, var, (24 if q else 600) * slow, maxn=9, nops=8, threadrun=1, weight=20 if q else 200, max_procs=2, **extra))
+            if var == "optim-asan" or not q:
+                bs.append(B("life-threads-large-%s-%s" % (be, var), "life", be, var, 2 if q else 10, n=630, nops=4, threadrun=1, membudget=140e6, weight=40 if q else 200,
+                            max_procs=2, det_count=1, **extra))
             # large dimensions incl. n > N (memory heavy: few runs)
             bs.append(B("life-large-%s-%s" % (be, var), "life", be, var, (4 if q else 60) * slow, nops=6, membudget=120e6, weight=60 if q else 300, max_procs=2, det_count=1, **extra))
             if var == "optim-asan" or not q:
